@@ -91,6 +91,16 @@ def event(rows, ids, cid, variant, seed, big=False):
         ths = [G.thr(t) for t in t2]
     df = pd.DataFrame({"g1": ["_".join(r[0]) for r in rows], "g2": ["_".join(r[1]) for r in rows],
                        "lab": [r[2] for r in rows], "score": scores})
+    # label column: ints, booleans (pos_label then a Python / NumPy bool or the int 0/1) or strings
+    lab_kind = (cid + v // 2) % 5
+    e["label_kind"] = ["int", "bool", "np_bool", "bool_int_pos", "str"][lab_kind]
+    pos_arg = pos_label
+    if lab_kind in (1, 2, 3):
+        df["lab"] = df["lab"].astype(bool)
+        pos_arg = [None, bool(pos_label), np.bool_(pos_label), int(pos_label)][lab_kind]
+    elif lab_kind == 4:
+        df["lab"] = np.where(df["lab"] == 1, "yes", "no")
+        pos_arg = "yes" if pos_label == 1 else "no"
     if (cid + v) % 2:
         df = df[["score", "g2", "lab", "g1"]]                  # column order of the frame differs from group_columns
     cols = (["g1", "g2"] if ncols == 2 else ["g1"]) if as_list else "g1"
@@ -122,7 +132,7 @@ def event(rows, ids, cid, variant, seed, big=False):
         try:
             np.random.seed(seed + cid)
             r = showbias(df, cols, "lab", "score", metric, normalize=None if normalize == "none" else normalize,
-                         pos_label=pos_label, score_class=sc, equal_class=ec,
+                         pos_label=pos_arg, score_class=sc, equal_class=ec,
                          threshold=ths[0] if scalar_thr else ths, **kw)
             vals = r.values
             idx = vals.index
